@@ -19,7 +19,14 @@ LEVEL = dict(
 PAD = "28bf4e5e4e758a4164004e56fffa01082e2e00b6d0683e802f0ca9fe6453697a"
 
 
-def facts_of(F, fn):
+def nz(x):
+    return x.replace("&", "").replace("*", "")
+
+
+def facts_of(F, fn, raw=False):
+    """rendered facts of an algorithm function.  Renderings are structural (a local assigned once shows as its defining
+    expression), parameters show by position (arg1 = self), other names as $n, and borrow/deref markers are dropped — so
+    that renaming a variable, introducing a `let`, or changing `&x` to `x` does not change any fact."""
     out = {"conds": [], "ranges": [], "calls": [], "consts": [], "stores": []}
     for b in F.fns(fn):
         # the function, its closures and the crate-local helpers it calls (a refactoring into a helper keeps the facts visible)
@@ -27,17 +34,22 @@ def facts_of(F, fn):
         if b not in scope:
             scope.append(b)
         for body in scope:
+            def R(o, d=12):
+                if raw:
+                    return body.oname(o, 6)
+                with body.alpha(args=True):
+                    return nz(body.sname(o, d))
             for bi in range(body.n):
                 t = body.term(bi)
                 if t["k"] == "switch":
-                    out["conds"].append(body.oname(t["d"], 6))
+                    out["conds"].append(R(t["d"]))
             for c in body.calls:
                 n = lib.canon_callee(F, c)
                 short = n.rsplit("::", 1)[-1]
-                args = [body.oname(a, 6) for a in c.args]
+                args = [R(a) for a in c.args]
                 out["calls"].append("%s(%s)" % (short, ", ".join(args)))
                 if (c.fn or "").endswith("IntoIterator::into_iter") and "Range" in (c.full or ""):
-                    out["ranges"].append(body.oname(c.args[0], 5))
+                    out["ranges"].append(R(c.args[0]))
                 for a in c.args:
                     k = lib._const_bytes_through(body, a)
                     if k is not None:
@@ -62,41 +74,96 @@ def has(lst, rx):
 
 # (id, function, kind, regex or bytes, minimum count, what it means)
 TABLE = [
-    ("alg2.pad-32", "PasswordAlgorithm::compute_file_encryption_key_r4", "calls", r"^min\(len\(&\*password\), 32\)$", 1, "Algorithm 2(a): pad or truncate the password to exactly 32 bytes"),
-    ("alg2.pad-rest", "PasswordAlgorithm::compute_file_encryption_key_r4", "calls", r"^index\(.*RangeTo::RangeTo\{Sub\(32,len\)\}\)$", 1, "Algorithm 2(a): append the first 32 - len bytes of the padding string"),
-    ("alg2.O", "PasswordAlgorithm::compute_file_encryption_key_r4", "calls", r"^update\(&hasher, &\*self\.owner_value\)$", 1, "Algorithm 2(c): pass the O entry to MD5"),
-    ("alg2.P-le32", "PasswordAlgorithm::compute_file_encryption_key_r4", "calls", r"^to_le_bytes\(p_value\(&\*self\.permissions\) as u32\)$", 1, "Algorithm 2(d): P as an unsigned 32-bit value, low-order byte first"),
-    ("alg2.fileid", "PasswordAlgorithm::compute_file_encryption_key_r4", "calls", r"^update\(&hasher, file_id_0\)$", 1, "Algorithm 2(e): first element of the file identifier"),
+    ("alg2.pad-32", "PasswordAlgorithm::compute_file_encryption_key_r4", "calls", r"^min\(len\(.+\), 32\)$", 1, "Algorithm 2(a): pad or truncate the password to exactly 32 bytes"),
+    ("alg2.pad-rest", "PasswordAlgorithm::compute_file_encryption_key_r4", "calls", r"^index\(.*RangeTo::RangeTo\{Sub\(32,.+\)\}\)$", 1, "Algorithm 2(a): append the first 32 - len bytes of the padding string"),
+    ("alg2.O", "PasswordAlgorithm::compute_file_encryption_key_r4", "calls", r"^update\(.+, arg1\.owner_value\)$", 1, "Algorithm 2(c): pass the O entry to MD5"),
+    ("alg2.P-le32", "PasswordAlgorithm::compute_file_encryption_key_r4", "calls", r"^to_le_bytes\(p_value\(arg1\.permissions\) as u32\)$", 1, "Algorithm 2(d): P as an unsigned 32-bit value, low-order byte first"),
+    ("alg2.fileid", "PasswordAlgorithm::compute_file_encryption_key_r4", "calls", r"^update\(.+, .*\bfirst\(.*\)$", 1, "Algorithm 2(e): first element of the file identifier"),
     ("alg2.metadata-ff", "PasswordAlgorithm::compute_file_encryption_key_r4", "consts", b"\xff\xff\xff\xff", 1, "Algorithm 2(f): 0xFFFFFFFF when metadata is not encrypted"),
-    ("alg2.metadata-rev4", "PasswordAlgorithm::compute_file_encryption_key_r4", "conds", r"^Ge\(\*self\.revision,4\)$", 1, "Algorithm 2(f): only for revision 4 or greater"),
-    ("alg2.metadata-flag", "PasswordAlgorithm::compute_file_encryption_key_r4", "conds", r"^\*self\.encrypt_metadata$", 1, "Algorithm 2(f): only if EncryptMetadata is false"),
+    ("alg2.metadata-rev4", "PasswordAlgorithm::compute_file_encryption_key_r4", "conds", r"^Ge\(arg1\.revision,4\)$", 1, "Algorithm 2(f): only for revision 4 or greater"),
+    ("alg2.metadata-flag", "PasswordAlgorithm::compute_file_encryption_key_r4", "conds", r"^arg1\.encrypt_metadata$", 1, "Algorithm 2(f): only if EncryptMetadata is false"),
     ("alg2.md5-50", "PasswordAlgorithm::compute_file_encryption_key_r4", "ranges", r"^Range::Range\{0,50\}$", 1, "Algorithm 2(h): 50 further MD5 rounds"),
-    ("alg2.rev3", "PasswordAlgorithm::compute_file_encryption_key_r4", "conds", r"^Ge\(\*self\.revision,3\)$", 2, "Algorithm 2(h,i): revision 3 or greater"),
-    ("alg2.keylen-16", "PasswordAlgorithm::compute_file_encryption_key_r4", "conds", r"^Gt\(n,16\)$", 1, "Algorithm 2(i): at most 16 bytes of the hash"),
+    ("alg2.rev3", "PasswordAlgorithm::compute_file_encryption_key_r4", "conds", r"^Ge\(arg1\.revision,3\)$", 2, "Algorithm 2(h,i): revision 3 or greater"),
+    ("alg2.keylen-16", "PasswordAlgorithm::compute_file_encryption_key_r4", "conds", r"^Gt\((?:\$\d+|arg\d+),16\)$", 1, "Algorithm 2(i): at most 16 bytes of the hash"),
     ("alg3.md5-50", "PasswordAlgorithm::authenticate_owner_password_r4", "ranges", r"^Range::Range\{0,50\}$", 1, "Algorithm 3(c)/7: 50 further MD5 rounds"),
     ("alg7.rc4-19-down", "PasswordAlgorithm::authenticate_owner_password_r4", "ranges", r"^rev\(new\(1,19\)\)$", 1, "Algorithm 7(b): RC4 with keys XOR 19 down to 1"),
-    ("alg5.pad", "PasswordAlgorithm::compute_hashed_user_password_r3_r4", "calls", r"^update\(&hasher, encryption::algorithms::PAD_BYTES\)$", 1, "Algorithm 5(b): MD5 of the padding string"),
+    ("alg5.pad", "PasswordAlgorithm::compute_hashed_user_password_r3_r4", "calls", r"^update\(.+, encryption::algorithms::PAD_BYTES\)$", 1, "Algorithm 5(b): MD5 of the padding string"),
     ("alg5.rc4-19-up", "PasswordAlgorithm::compute_hashed_user_password_r3_r4", "ranges", r"^new\(1,19\)$", 1, "Algorithm 5(e): RC4 with keys XOR 1 to 19"),
-    ("alg1.objnum-3le", "<Rc4CryptFilter as CryptFilter>::compute_key", "calls", r"^index\(&to_le_bytes\(\w+(\.0)?\), RangeTo::RangeTo\{3\}\)$", 1, "Algorithm 1(b): low-order 3 bytes of the object number, low-order byte first"),
-    ("alg1.gen-2le", "<Rc4CryptFilter as CryptFilter>::compute_key", "calls", r"^index\(&to_le_bytes\(\w+(\.1)?\), RangeTo::RangeTo\{2\}\)$", 1, "Algorithm 1(b): low-order 2 bytes of the generation number, low-order byte first"),
-    ("alg1.keylen", "<Rc4CryptFilter as CryptFilter>::compute_key", "calls", r"^min\(Add\(len\(&\*key\),5\), 16\)$", 1, "Algorithm 1(d): first min(n + 5, 16) bytes"),
-    ("alg1a.objnum-3le", "<Aes128CryptFilter as CryptFilter>::compute_key", "calls", r"^index\(&to_le_bytes\(\w+(\.0)?\), RangeTo::RangeTo\{3\}\)$", 1, "Algorithm 1(b) for AES: low-order 3 bytes of the object number"),
-    ("alg1a.gen-2le", "<Aes128CryptFilter as CryptFilter>::compute_key", "calls", r"^index\(&to_le_bytes\(\w+(\.1)?\), RangeTo::RangeTo\{2\}\)$", 1, "Algorithm 1(b) for AES: low-order 2 bytes of the generation number"),
+    ("alg1.objnum-3le", "<Rc4CryptFilter as CryptFilter>::compute_key", "calls", r"^index\(to_le_bytes\(arg3\.0\), RangeTo::RangeTo\{3\}\)$", 1, "Algorithm 1(b): low-order 3 bytes of the object number, low-order byte first"),
+    ("alg1.gen-2le", "<Rc4CryptFilter as CryptFilter>::compute_key", "calls", r"^index\(to_le_bytes\(arg3\.1\), RangeTo::RangeTo\{2\}\)$", 1, "Algorithm 1(b): low-order 2 bytes of the generation number, low-order byte first"),
+    ("alg1.keylen", "<Rc4CryptFilter as CryptFilter>::compute_key", "calls", r"^min\(Add\(len\(arg2\),5\), 16\)$", 1, "Algorithm 1(d): first min(n + 5, 16) bytes"),
+    ("alg1a.objnum-3le", "<Aes128CryptFilter as CryptFilter>::compute_key", "calls", r"^index\(to_le_bytes\(arg3\.0\), RangeTo::RangeTo\{3\}\)$", 1, "Algorithm 1(b) for AES: low-order 3 bytes of the object number"),
+    ("alg1a.gen-2le", "<Aes128CryptFilter as CryptFilter>::compute_key", "calls", r"^index\(to_le_bytes\(arg3\.1\), RangeTo::RangeTo\{2\}\)$", 1, "Algorithm 1(b) for AES: low-order 2 bytes of the generation number"),
     ("alg1a.salt", "<Aes128CryptFilter as CryptFilter>::compute_key", "consts", b"sAlT", 1, "Algorithm 1(c): the bytes 73 41 6C 54"),
-    ("alg1a.keylen", "<Aes128CryptFilter as CryptFilter>::compute_key", "calls", r"^min\(Add\(len\(&\*key\),5\), 16\)$", 1, "Algorithm 1(d): first min(n + 5, 16) bytes"),
-    ("alg2a.truncate-127", "PasswordAlgorithm::compute_file_encryption_key_r6", "conds", r"^Gt\(len\(&\*password\),127\)$", 1, "Algorithm 2.A(a): truncate the password to 127 bytes"),
+    ("alg1a.keylen", "<Aes128CryptFilter as CryptFilter>::compute_key", "calls", r"^min\(Add\(len\(arg2\),5\), 16\)$", 1, "Algorithm 1(d): first min(n + 5, 16) bytes"),
+    ("alg2a.truncate-127", "PasswordAlgorithm::compute_file_encryption_key_r6", "conds", r"^Gt\(len\(.+\),127\)$", 1, "Algorithm 2.A(a): truncate the password to 127 bytes"),
     ("alg2a.owner-salts", "PasswordAlgorithm::compute_file_encryption_key_r6", "calls", r"RangeFrom::RangeFrom\{(32|40)\}", 4, "Algorithm 2.A: validation salt at 32..40 and key salt at 40..48 of O and U"),
-    ("alg2b.sha-mod3", "PasswordAlgorithm::compute_hash", "conds", r"^Rem\(sum\(.*\),3\)$", 1, "Algorithm 2.B(d): the sum of the first 16 bytes of E modulo 3 selects SHA-256/384/512"),
-    ("alg2b.64-rounds", "PasswordAlgorithm::compute_hash", "conds", r"^Ge\(round,64\)$", 1, "Algorithm 2.B(e,f): at least 64 rounds"),
-    ("alg2b.exit-le", "PasswordAlgorithm::compute_hash", "conds", r"^Le\(.*last.* as u32,Sub\(round,32\)\)$", 1, "Algorithm 2.B(f): stop when the last byte of E is <= round - 32 (less than or EQUAL)"),
+    ("alg2b.sha-mod3", "PasswordAlgorithm::compute_hash", "conds", r"^Rem\(.+,3\)$", 1, "Algorithm 2.B(d): the sum of the first 16 bytes of E modulo 3 selects SHA-256/384/512"),
+    ("alg2b.64-rounds", "PasswordAlgorithm::compute_hash", "conds", r"^Ge\(next\(.*RangeFrom::RangeFrom\{1\}\)\)@Some\.0,64\)$", 1, "Algorithm 2.B(e,f): at least 64 rounds"),
+    ("alg2b.exit-le", "PasswordAlgorithm::compute_hash", "conds", r"^Le\(.*last\(.* as u32,Sub\(next\(.*RangeFrom::RangeFrom\{1\}\)\)@Some\.0,32\)\)$", 1, "Algorithm 2.B(f): stop when the last byte of E is <= round - 32 (less than or EQUAL)"),
     ("alg2b.64-copies", "PasswordAlgorithm::compute_hash", "ranges", r"^Range::Range\{0,64\}$", 1, "Algorithm 2.B(a): 64 repetitions of password || K || user key"),
     ("alg2b.key-iv", "PasswordAlgorithm::compute_hash", "calls", r"RangeFrom::RangeFrom\{16\}", 1, "Algorithm 2.B(b): key = K[0..16], IV = K[16..32]"),
-    ("alg2b.first16", "PasswordAlgorithm::compute_hash", "calls", r"^index\(&e, RangeTo::RangeTo\{16\}\)$", 1, "Algorithm 2.B(c): the first 16 bytes of E"),
-    ("alg11.truncate-127", "PasswordAlgorithm::authenticate_user_password_r6", "conds", r"^Gt\(len\(&\*user_password\),127\)$", 1, "Algorithm 11: truncate to 127 bytes"),
-    ("alg12.truncate-127", "PasswordAlgorithm::authenticate_owner_password_r6", "conds", r"^Gt\(len\(&\*owner_password\),127\)$", 1, "Algorithm 12: truncate to 127 bytes"),
-    ("alg10.P-le64", "PasswordAlgorithm::compute_permissions", "calls", r"^to_le_bytes\(p_value\(&\*self\.permissions\)\)$", 1, "Algorithm 10(a): P extended to 64 bits, little endian"),
-    ("alg10.metadata-flag", "PasswordAlgorithm::compute_permissions", "conds", r"^\*self\.encrypt_metadata$", 1, "Algorithm 10(c): byte 8 is T or F"),
+    ("alg2b.first16", "PasswordAlgorithm::compute_hash", "calls", r"^index\((?:\$\d+|arg\d+), RangeTo::RangeTo\{16\}\)$", 1, "Algorithm 2.B(c): the first 16 bytes of E"),
+    ("alg11.truncate-127", "PasswordAlgorithm::authenticate_user_password_r6", "conds", r"^Gt\(len\(.+\),127\)$", 1, "Algorithm 11: truncate to 127 bytes"),
+    ("alg12.truncate-127", "PasswordAlgorithm::authenticate_owner_password_r6", "conds", r"^Gt\(len\(.+\),127\)$", 1, "Algorithm 12: truncate to 127 bytes"),
+    ("alg10.P-le64", "PasswordAlgorithm::compute_permissions", "calls", r"^to_le_bytes\(p_value\(arg1\.permissions\)\)$", 1, "Algorithm 10(a): P extended to 64 bits, little endian"),
+    ("alg10.metadata-flag", "PasswordAlgorithm::compute_permissions", "conds", r"^arg1\.encrypt_metadata$", 1, "Algorithm 10(c): byte 8 is T or F"),
 ]
+
+
+def sha_dispatch(F, b):
+    """the 3-way selection of Algorithm 2.B(d): (mapping residue -> SHA variant, description of the selector) or None."""
+    import guard
+    env = guard.Env(b)
+    for bi in range(b.n):
+        t = b.term(bi)
+        if t["k"] != "switch" or t["dty"] == "bool":
+            continue
+        p = op_place(t["d"])
+        if p is None or p["p"]:
+            continue
+        d = b.single_def(p["l"])
+        if not (d and d[2] == "rv" and d[3]["k"] == "bin" and d[3]["op"] == "Rem"):
+            continue
+        k = op_const(d[3]["b"])
+        if k is None or const_int(k) != 3:
+            continue
+        mapping = {}
+        for v, x in t["tg"]:
+            seen = set()
+            while x not in seen:
+                seen.add(x)
+                tt = b.term(x)
+                if tt["k"] == "call":
+                    m = re.search(r"OidSha(\d+)>> as \w+::Digest>::digest", tt["f"].get("full") or "")
+                    if m:
+                        mapping[int(v)] = int(m.group(1))
+                        break
+                ns = [y for y in b.succ[x] if not b.blocks[y].get("cleanup")]
+                if len(ns) != 1:
+                    break
+                x = ns[0]
+        X = d[3]["a"]
+        with b.alpha(args=True):
+            r = nz(b.sname(X, 12))
+        sel = None
+        if re.search(r"^sum\(.*RangeTo::RangeTo\{16\}", r):
+            sel = "sum over [..16]"
+        else:
+            xp = op_place(X)
+            l = xp["l"] if xp is not None and not xp["p"] else None
+            for _ in range(4):
+                if l is None or len(b.defs.get(l, [])) != 1:
+                    break
+                dd = b.single_def(l)
+                if dd[2] == "rv" and dd[3]["k"] == "use" and op_place(dd[3]["o"]) is not None and not op_place(dd[3]["o"])["p"]:
+                    l = op_place(dd[3]["o"])["l"]
+                else:
+                    break
+            if l is not None and env.accumulator_bound(l) == 16 * 255:
+                sel = "accumulator over 16 bytes"
+        return mapping, sel, r
+    return None
 
 
 def r_dead(F, b):
@@ -166,6 +233,11 @@ def run(ctx):
                what="%s: the code of %s no longer shows this (looked for %s /%s/ at least %d time(s), found %d)" % (why, fn, kind, shown, n, got))
         if len(ctx.samples) < 8:
             ctx.sample({"fact": fid, "function": fn, "standard": why})
+    sd = sha_dispatch(F, F.fn("PasswordAlgorithm::compute_hash"))
+    ctx.ob(R, "alg2b.sha-dispatch", sd is not None and sd[0] == {0: 256, 1: 384, 2: 512} and sd[1] is not None,
+           "Algorithm 2.B(d): residue 0/1/2 of the byte sum of E[..16] selects SHA-256/384/512 (%s)" % (sd[1] if sd else "-"), F.fn("PasswordAlgorithm::compute_hash").where(),
+           what="Algorithm 2.B(d): the selection of SHA-256/384/512 by (sum of the first 16 bytes of E) mod 3 is not what the code does (mapping %s, selector %s)"
+                % ((sd[0], sd[2][:120]) if sd else ("none", "none")))
     # permission bits
     pv = F.fn("Permissions::p_value")
     ints = sorted(set(int(k["int"]) for bi, si, s in pv.stmts() if s.get("rv") for o in ([s["rv"].get("o")] if s["rv"]["k"] in ("use", "cast") else [s["rv"].get("a"), s["rv"].get("b")] if s["rv"]["k"] == "bin" else [])
